@@ -63,7 +63,7 @@ func (c *cluster) step(a vAct) {
 	recordAction(a)
 	c.tracef("%s", a)
 	switch a.A {
-	case "dlv", "dlvto", "dlvfrom", "dlvpair", "dlvamong", "settle":
+	case "dlv", "dlvto", "dlvfrom", "dlvpair", "dlvamong", "dlvnewest", "settle":
 		c.deliveryStep = c.net.gated
 	default:
 		c.deliveryStep = false
@@ -260,6 +260,15 @@ func (c *cluster) apply(a vAct) {
 			if c.net.releaseAll(func(from, to string) bool {
 				return (from == h1 && to == h2) || (from == h2 && to == h1)
 			}) == 0 {
+				break
+			}
+			synctest.Wait()
+		}
+	case "dlvnewest":
+		// only the newest connection between the two nodes (either dial direction)
+		h1, h2 := hostOf(a.N), hostOf(a.M)
+		for i := 0; i < a.K; i++ {
+			if c.net.releaseNewest(h1, h2) == 0 {
 				break
 			}
 			synctest.Wait()
